@@ -45,14 +45,15 @@ def _res_to_dict(r):
                 path=r.path, detail=r.detail, kind=r.kind)
 
 
-def _run_contract_task(idx):
+def _run_contract_task(task):
     from . import smt
     t0 = time.time()
     contracts, lemmas = _MODS
+    idx, names = task
     c = contracts[idx]
     try:
         v = _get_verifier()
-        res, info = v.run_contract(c)
+        res, info = v.run_contract(c, scenario_filter=set(names) if names is not None else None)
         fv = v.target_func(c)
         return dict(idx=idx, ok=True, results=[_res_to_dict(r) for r in res],
                     info=dict(paths=info["paths"], infeasible=info["infeasible"], exits=info["exits"],
@@ -90,19 +91,43 @@ def run_property(prop, tier="quick", seed=0, jobs=None, verbose=False):
     contracts, lemmas = _load(mods)
     mine = [i for i, c in enumerate(contracts) if prop in c.props]
     mylem = [i for i, l in enumerate(lemmas) if prop in l.props]
-    jobs = jobs or min(16, max(1, len(mine) + len(mylem)))
+    jobs = jobs or 16
     out = {"contracts": {}, "lemmas": {}, "errors": []}
     solver_time = 0.0
     with cf.ProcessPoolExecutor(max_workers=jobs, initializer=_worker_init, initargs=(mods,)) as ex:
-        futs = {ex.submit(_run_contract_task, i): ("c", i) for i in mine}
+        tasks = []
+        for i in mine:
+            names = [n for n, _ in contracts[i].scenarios]
+            k = getattr(contracts[i], "chunk", 16)
+            if len(names) <= k:
+                tasks.append((i, None))
+            else:
+                tasks += [(i, names[j:j + k]) for j in range(0, len(names), k)]
+        futs = {ex.submit(_run_contract_task, t): ("c", t) for t in tasks}
         futs.update({ex.submit(_run_lemma_task, i): ("l", i) for i in mylem})
         for f in cf.as_completed(futs):
             kind, i = futs[f]
             try:
                 r = f.result()
             except Exception as e:
-                r = dict(idx=i, ok=False, error=f"worker died: {e}", tb="")
-            (out["contracts"] if kind == "c" else out["lemmas"])[i] = r
+                r = dict(idx=i if kind == "l" else i[0], ok=False, error=f"worker died: {e}", tb="")
+            if kind == "l":
+                out["lemmas"][i] = r
+                continue
+            ci = i[0]
+            prev = out["contracts"].get(ci)
+            if prev is None or not prev.get("ok") or not r.get("ok"):
+                if prev is None or (prev.get("ok") and not r.get("ok")):
+                    out["contracts"][ci] = r
+                continue
+            prev["results"] += r["results"]
+            for k2 in ("paths", "infeasible"):
+                prev["info"][k2] += r["info"][k2]
+            for k2, v2 in r["info"]["exits"].items():
+                prev["info"]["exits"][k2] = prev["info"]["exits"].get(k2, 0) + v2
+            prev["info"]["assumed"] = sorted(set(prev["info"]["assumed"]) | set(r["info"]["assumed"]))
+            prev["info"]["unsupported"] += r["info"]["unsupported"]
+            prev["secs"] += r["secs"]
     return contracts, lemmas, out
 
 
